@@ -443,3 +443,27 @@ Proof. vm_compute. auto 6. Qed.
 Example ex_threshold : too_deep (depth FParens (ctx_local 0) (threshold FParens (ctx_local 0))) = true /\
   too_deep (depth FParens (ctx_local 0) (threshold FParens (ctx_local 0) - 1)) = false /\ 1 <= threshold FParens (ctx_local 0).
 Proof. vm_compute. intuition discriminate. Qed.
+
+(* ------------------------------------------------------------------ *)
+(* the two scraped repair flags are NEEDED: the theorems that use them through fact_shapes are false under the
+   other policy.  calcline_with / the unbounded \u rule are the model's own other branches. *)
+Definition calcline_with (excl : bool) (text : list Z) (pos : Z) : option calc :=
+  if pos <? 0 then None
+  else
+    let p := Z.min pos (len text) in
+    let q := if excl then (if 0 <? p then p - 1 else 0) else p in
+    let prefix := firstn (Z.to_nat q) text in
+    let rest := skipn (Z.to_nat q) text in
+    let lastpos := last_nl prefix in
+    let tail := take_line rest in
+    Some (mk_calc (count_nl prefix + 1) (p - lastpos)
+                  (skipn (Z.to_nat lastpos) prefix ++ tail) (lastpos + 1) (q + len tail)).
+Lemma calcline_is_with : forall text pos, calcline text pos = calcline_with CALCLINE_EXCLUSIVE text pos.
+Proof. intros. reflexivity. Qed.
+(* old policy (prefix includes the position): an error position ON a newline gets column 0 *)
+Lemma calcline_exclusive_needed : exists text pos c, 1 <= pos <= len text + 1 /\ 1 <= len text /\
+  calcline_with false text pos = Some c /\ c_colno c = 0.
+Proof. exists [97; NL], 2. eexists. split; [vm_compute; split; discriminate|]. split; [vm_compute; discriminate|]. split; vm_compute; reflexivity. Qed.
+(* old \u rule (any number of hex digits): the value handed to utf8.char can exceed MAXUTF *)
+Lemma escape_u_bound_needed : exists digs r1 r3, span_hex r1 = (digs, 125 :: r3) /\ digs <> [] /\ MAXUTF < hexval digs.
+Proof. exists [56; 48; 48; 48; 48; 48; 48; 48], [56; 48; 48; 48; 48; 48; 48; 48; 125], []. split; [vm_compute; reflexivity|]. split; [discriminate|]. vm_compute. reflexivity. Qed.
